@@ -90,4 +90,10 @@ TEXT = {
         "technique": "Lean 4 soundness/completeness theorems for the constructor mirrors + grid correspondence (constructor, verify, count, write through three sinks, parse back)",
         "design_ref": "DESIGN.md section 3 C18",
     },
+    "C20": {
+        "level_text": "Translation validation (not a proof): no Lean definition can mention a cargo feature, so the model is feature-free by construction and the property is decided by validating every buildable feature set against that same model. The harness is built with {}, default, default+decode and default+decode+experimental; each build encodes the same fixed-seed corpus of inputs and non-experimental configurations; every output is accepted by the strict Lean RFC decoder, reproduces the input, matches the model's STREAMINFO book-keeping and (single-thread records) is reproduced byte for byte by the functional encoder model on the logged oracle; the digests of the emitted bytes are then compared case by case across the four builds.",
+        "level_note": "Lower level than the other properties by necessity (said in DESIGN.md section 3 C20): conditional compilation is outside what a model of the code's semantics can express; equality of the float-derived choices across builds is established by comparison only.",
+        "technique": "per-build translation validation against one Lean model + cross-build digest comparison",
+        "design_ref": "DESIGN.md section 3 C20",
+    },
 }
